@@ -13,6 +13,7 @@ import (
 	"encoding/json"
 	"fmt"
 	"github.com/tendermint/tendermint/state/txindex"
+	"math"
 	"sort"
 	"sync"
 	"time"
@@ -1034,6 +1035,11 @@ func (n *Node) Restart() {
 		panic("Restart inside a block")
 	}
 	ResetGlobals(n.Spec)
+	// a new process starts with the DEFAULT activation schedule (nothing scheduled) and derives the real one from the
+	// upgrade stored in state while the application is constructed - not from the genesis spec
+	codec.UpgradeFeatureMap = make(map[string]int64)
+	codec.UpgradeHeight = math.MaxInt64
+	codec.OldUpgradeHeight = 0
 	app.GenState = BuildGenesis(n.Spec)
 	n.App = app.NewPocketCoreApp(app.GenState, keys.NewInMemory(), stubClient{}, &pocketTypes.HostedBlockchains{M: map[string]pocketTypes.HostedBlockchain{}},
 		log.NewNopLogger(), n.DB, n.Spec.Cache, 5000000, bam.SetPruning(store.PruneNothing))
